@@ -4,6 +4,7 @@ from vf.core import call, exc_desc
 from vf.lazy import ck, libx, common
 
 PROP = "C07"
+TECHNIQUE = ('runtime monitoring: ParFront vs ParCons partitions judged against ALL minimisers enumerated by a DP oracle; consistent_with judged on generated pairs with known truth')
 RULE = ("cases = dataset (D11/D10 block structured with >= 3 components and cascading merges, D8, D9, D3; n<=7 quick, "
         "<=9 thorough) x scheme (S1-S3, S6); oracle = subset DP with reconstruction of ALL minimisers (cases with more "
         "than 5000 optima are skipped and counted); plus generated (partition, consensus) pairs with known truth for "
